@@ -593,3 +593,12 @@ M('C14', 'neutral-near-hoist-normal', FILF, """                let face = self.m
                         || check.near_check(tri[1], normal)
                         || check.near_check(tri[2], normal)
                 }""", '', kind='neutral')
+S1F = 'src/func1/series1.rs'
+C2F = 'src/geom2/circle2.rs'
+M('C09', 'best-fit-line-threshold', S1F, "        let m = (n * sum_xy - sum_x * sum_y) / (n * sum_xx - sum_x * sum_x);", "        let det = n * sum_xx - sum_x * sum_x;\n        if det.abs() < 1.0e-6 {\n            return Line1::new_mxb(0.0, sum_y / n);\n        }\n        let m = (n * sum_xy - sum_x * sum_y) / det;", 'best_fit_line')
+M('C09', 'best-fit-line-intercept', S1F, "        let b = (sum_y - m * sum_x) / n;", "        let b = (sum_y - m * sum_xx) / n;", 'best_fit_line')
+M('C09', 'neutral-best-fit-line-det', S1F, "        let m = (n * sum_xy - sum_x * sum_y) / (n * sum_xx - sum_x * sum_x);", "        let det = n * sum_xx - sum_x * sum_x;\n        let m = (n * sum_xy - sum_x * sum_y) / det;", '', kind='neutral')
+M('C09', 'ransac-count-early-exit', C2F, "                for p in points {\n                    if c.distance_to(p).abs() < tol {", "                for (k, p) in points.iter().enumerate() {\n                    if count + (points.len() - k - 1) <= best_count {\n                        break;\n                    }\n                    if c.distance_to(p).abs() < tol {", 'ransac:exhaustive')
+CV2F = 'src/geom2/curve2.rs'
+M('C11', 'curve-circle-quick-reject', CV2F, "        for i in 0..self.count() - 1 {\n            if let Ok(seg) = Segment2::try_new(self.vtx(i), self.vtx(i + 1)) {\n                for p in other.intersection(&seg) {", "        for i in 0..self.count() - 1 {\n            let d0 = other.distance_to(&self.vtx(i));\n            let d1 = other.distance_to(&self.vtx(i + 1));\n            if d0 * d1 > 0.0 {\n                continue;\n            }\n            if let Ok(seg) = Segment2::try_new(self.vtx(i), self.vtx(i + 1)) {\n                for p in other.intersection(&seg) {", 'every-edge')
+M('C11', 'curve-circle-first-hit-only', CV2F, "                for p in other.intersection(&seg) {\n                    points.push(p);\n                }", "                for p in other.intersection(&seg) {\n                    points.push(p);\n                    break;\n                }", 'every-edge')
